@@ -60,7 +60,7 @@ class SysStub:
 def make_body_a(info):
     spec = [('old', 'int', '50 <= old <= 100000'), ('req', 'int', '10 <= req <= 100000'), ('n', 'int', '0 <= n <= 3'),
             ('sat', 'int', '0 <= sat <= 3'), ('skind', 'int', '0 <= skind <= 3'),
-            ('pat', 'int', '0 <= pat <= 3'), ('pkind', 'int', '0 <= pkind <= 2')]
+            ('pat', 'int', '0 <= pat <= 3'), ('pkind', 'int', '0 <= pkind <= 3'), ('nested', 'bool', None), ('req2', 'int', '10 <= req2 <= 100000')]
     ix = ch.index_of(spec)
 
     def body(vals):
@@ -91,9 +91,16 @@ def make_body_a(info):
 
         def proj(x):
             proj_calls[0] += 1
+            if g('nested') and proj_calls[0] == 1:
+                # the projection itself runs a bounded evaluation on the same engine (re-entrancy)
+                inner = yp.evaluate_bounded(iter([False, False]), lambda y: 7, g('req2'))
+                if inner != [7, 7]:
+                    state['inner_wrong'] = True
             if g('pkind') != 0 and proj_calls[0] - 1 == g('pat'):
                 if g('pkind') == 1:
                     raise RuntimeError('projection')
+                if g('pkind') == 3:
+                    raise RecursionError('maximum recursion depth exceeded (in the projection)')
                 raise Private('projection')
             return proj_calls[0] - 1
         saved = engine.sys
@@ -129,8 +136,11 @@ def make_body_a(info):
         exp = g('n')
         if g('skind') != 0 and g('sat') < exp:
             exp = g('sat')
-        if g('pkind') == 1 and g('pat') < exp:
+        if (g('pkind') == 1 or g('pkind') == 3) and g('pat') < exp:
             exp = g('pat')
+        if state.get('inner_wrong'):
+            ch.note(info, 'a nested evaluate_bounded returned a wrong result')
+            return ch.VIOLATED
         if len(result) != exp:
             ch.note(info, 'result has %d entries, expected %d', len(result), exp)
             return ch.VIOLATED
